@@ -66,8 +66,30 @@ enum Par {
     Prev,
 }
 
+/// One action of an operation (revisions named by creation order, 0 = root; `parent` is resolved
+/// against the state *before* the operation).
+#[derive(Clone, Copy, Debug, PartialEq, Eq, PartialOrd, Ord, Serialize, Deserialize)]
+enum Act {
+    Propose { doc: u8, parent: Par, sig: Sig },
+    Accept { rev: u8, sig: Sig },
+    Reject { rev: u8 },
+    Edit { rev: u8 },
+    Redact { rev: u8 },
+}
+
+impl Act {
+    fn kind(&self) -> &'static str {
+        match self {
+            Act::Propose { .. } => "propose",
+            Act::Accept { .. } => "accept",
+            Act::Reject { .. } => "reject",
+            Act::Edit { .. } => "edit",
+            Act::Redact { .. } => "redact",
+        }
+    }
+}
+
 /// Actors are indexes: 0..n_del are the delegates of the initial document, n_del is the stranger.
-/// Revisions are named by creation order (0 = root).
 #[derive(Clone, Debug, PartialEq, Eq, PartialOrd, Ord, Serialize, Deserialize)]
 enum Ev {
     /// First event: the configuration (number of delegates of the initial document).
@@ -77,23 +99,33 @@ enum Ev {
     Reject { by: u8, rev: u8 },
     Edit { by: u8, rev: u8 },
     Redact { by: u8, rev: u8 },
+    /// One operation carrying two actions.
+    Two { by: u8, a: Act, b: Act },
 }
 
 impl Ev {
     fn by(&self) -> u8 {
         match self {
             Ev::Cfg(_) => 0,
-            Ev::Propose { by, .. } | Ev::Accept { by, .. } | Ev::Reject { by, .. } | Ev::Edit { by, .. } | Ev::Redact { by, .. } => *by,
+            Ev::Propose { by, .. } | Ev::Accept { by, .. } | Ev::Reject { by, .. } | Ev::Edit { by, .. } | Ev::Redact { by, .. } | Ev::Two { by, .. } => *by,
         }
     }
-    fn kind(&self) -> &'static str {
+    fn acts(&self) -> Vec<Act> {
+        match *self {
+            Ev::Cfg(_) => vec![],
+            Ev::Propose { doc, parent, sig, .. } => vec![Act::Propose { doc, parent, sig }],
+            Ev::Accept { rev, sig, .. } => vec![Act::Accept { rev, sig }],
+            Ev::Reject { rev, .. } => vec![Act::Reject { rev }],
+            Ev::Edit { rev, .. } => vec![Act::Edit { rev }],
+            Ev::Redact { rev, .. } => vec![Act::Redact { rev }],
+            Ev::Two { a, b, .. } => vec![a, b],
+        }
+    }
+    fn kind(&self) -> String {
         match self {
-            Ev::Cfg(_) => "cfg",
-            Ev::Propose { .. } => "propose",
-            Ev::Accept { .. } => "accept",
-            Ev::Reject { .. } => "reject",
-            Ev::Edit { .. } => "edit",
-            Ev::Redact { .. } => "redact",
+            Ev::Cfg(_) => "cfg".to_string(),
+            Ev::Two { a, b, .. } => format!("two[{},{}]", a.kind(), b.kind()),
+            other => other.acts()[0].kind().to_string(),
         }
     }
 }
@@ -300,33 +332,71 @@ impl Sys {
         }
     }
 
-    /// The action an event stands for, with the given id mapping (in-memory or real).
-    fn action(&self, ev: &Ev, rev_id: &dyn Fn(u8) -> Oid) -> Action {
+    /// The concrete action of `act` by `by`, with the given id mapping (in-memory or real);
+    /// `self` is the state before the operation.
+    fn action(&self, by: u8, act: &Act, rev_id: &dyn Fn(u8) -> Oid) -> Action {
         let f = self.fx();
-        match ev {
-            Ev::Propose { by, doc, parent, sig } => {
-                let cur = self.cur_ix();
-                let p = match parent {
-                    Par::Cur => cur,
-                    Par::Prev => self.revs[cur as usize].parent.expect("Prev enabled only when current has a parent"),
-                };
-                Action::Revision {
-                    title: format!("proposal by {}", ACTOR_NAMES[*by as usize]),
-                    description: String::new(),
-                    blob: f.docs[*doc as usize].blob,
-                    parent: Some(rev_id(p)),
-                    signature: f.sigs[*by as usize][*doc as usize][*sig as usize],
-                }
-            }
-            Ev::Accept { by, rev, sig } => {
+        match act {
+            Act::Propose { doc, parent, sig } => Action::Revision {
+                title: format!("proposal by {}", ACTOR_NAMES[by as usize]),
+                description: String::new(),
+                blob: f.docs[*doc as usize].blob,
+                parent: Some(rev_id(self.parent_ix(*parent))),
+                signature: f.sigs[by as usize][*doc as usize][*sig as usize],
+            },
+            Act::Accept { rev, sig } => {
                 let d = self.revs[*rev as usize].doc;
-                Action::RevisionAccept { revision: rev_id(*rev), signature: f.sigs[*by as usize][d as usize][*sig as usize] }
+                Action::RevisionAccept { revision: rev_id(*rev), signature: f.sigs[by as usize][d as usize][*sig as usize] }
             }
-            Ev::Reject { rev, .. } => Action::RevisionReject { revision: rev_id(*rev) },
-            Ev::Edit { rev, .. } => Action::RevisionEdit { revision: rev_id(*rev), title: "edited".to_string(), description: "edited".to_string() },
-            Ev::Redact { rev, .. } => Action::RevisionRedact { revision: rev_id(*rev) },
-            Ev::Cfg(_) => unreachable!("Cfg is not an operation"),
+            Act::Reject { rev } => Action::RevisionReject { revision: rev_id(*rev) },
+            Act::Edit { rev } => Action::RevisionEdit { revision: rev_id(*rev), title: "edited".to_string(), description: "edited".to_string() },
+            Act::Redact { rev } => Action::RevisionRedact { revision: rev_id(*rev) },
         }
+    }
+
+    fn parent_ix(&self, parent: Par) -> u8 {
+        let cur = self.cur_ix();
+        match parent {
+            Par::Cur => cur,
+            Par::Prev => self.revs[cur as usize].parent.expect("Prev enabled only when current has a parent"),
+        }
+    }
+
+    /// Apply ONE operation carrying `acts` with the real `Identity::op`; update the model's
+    /// revision table and signature bits. Returns the result and the revision it created.
+    fn apply(&mut self, by: u8, acts: &[Act]) -> (Result<(), identity::ApplyError>, Option<u8>) {
+        let f = self.fx();
+        let op_id = syn_oid(self.applied.len() as u32 + 1);
+        let actions: Vec<Action> = acts.iter().map(|a| self.action(by, a, &|r| self.revs[r as usize].id)).collect();
+        let mut proposed: Option<(u8, u8)> = None; // (doc, parent)
+        for a in acts {
+            match a {
+                Act::Propose { doc, parent, sig } => {
+                    proposed = Some((*doc, self.parent_ix(*parent)));
+                    if self.sig_valid(by, *doc, &f.sigs[by as usize][*doc as usize][*sig as usize]) {
+                        self.signed.insert((*doc, by));
+                    }
+                }
+                Act::Accept { rev, sig } => {
+                    let d = self.revs[*rev as usize].doc;
+                    if self.sig_valid(by, d, &f.sigs[by as usize][d as usize][*sig as usize]) {
+                        self.signed.insert((d, by));
+                    }
+                }
+                _ => {}
+            }
+        }
+        let op = Op::new(op_id, nonempty::NonEmpty::from_vec(actions).expect("actions"), f.keys[by as usize], Timestamp::from_secs(T0), None, Manifest::new(identity::TYPENAME.clone(), cob::Version::default()));
+        let result = with_repo(f, |repo| self.id.op(op, std::iter::empty::<&cob::Entry>(), repo));
+        let mut made = None;
+        if let Some((doc, parent)) = proposed {
+            if self.id.revision(&op_id).is_some() {
+                self.revs.push(RevInfo { id: op_id, doc, parent: Some(parent), link_ok: None });
+                made = Some(self.revs.len() as u8 - 1);
+            }
+        }
+        self.applied.push((result.is_ok(), made));
+        (result, made)
     }
 
     /// Everything observable of the identity, ids replaced by creation-order names.
@@ -404,9 +474,10 @@ impl Sys {
         Some((x, in_state))
     }
 
-    /// I1. At the step that makes `y` current the new link is judged (and the witness classified);
-    /// on every later state the links that were sound when created are re-judged.
-    fn check_i1(&mut self, adopted: Option<u8>, vs: &mut Vec<Violation>) {
+    /// I1. A link is judged (and the witness classified) the first time it is seen on the chain
+    /// current → root, i.e. after the operation that made it; on every later state the links that
+    /// were sound when created are re-judged.
+    fn check_i1(&mut self, vs: &mut Vec<Violation>) {
         let f = self.fx();
         let names = |v: &[u8]| v.iter().map(|i| ACTOR_NAMES[*i as usize]).collect::<Vec<_>>().join(",");
         let mut y = self.cur_ix();
@@ -415,7 +486,7 @@ impl Sys {
             let dels = &f.docs[self.revs[x as usize].doc as usize].delegates;
             let ydoc = self.revs[y as usize].doc;
             let sound = in_state.len() * 2 > dels.len();
-            if adopted == Some(y) {
+            if self.revs[y as usize].link_ok.is_none() {
                 self.revs[y as usize].link_ok = Some(sound);
                 if !sound {
                     let yrev = self.id.revision(&self.revs[y as usize].id).expect("checked by link_signers");
@@ -426,7 +497,7 @@ impl Sys {
                     let mut reasons: BTreeSet<&'static str> = BTreeSet::new();
                     for v in voters.iter().filter(|v| !in_state.contains(v)) {
                         let verdict_is_reject = yrev.verdicts().any(|(k, vd)| *k == f.keys[*v as usize] && matches!(vd, Verdict::Reject));
-                        let bad_accept = self.hist.iter().any(|e| matches!(e, Ev::Accept { by, rev, sig } if by == v && *rev == y && *sig != Sig::Valid));
+                        let bad_accept = self.hist.iter().any(|e| e.by() == *v && e.acts().iter().any(|a| matches!(a, Act::Accept { rev, sig } if *rev == y && *sig != Sig::Valid)));
                         reasons.insert(if bad_accept {
                             "vote-of-pruned-accept-with-invalid-signature-counted"
                         } else if verdict_is_reject && ever.contains(v) {
@@ -485,13 +556,17 @@ impl Sys {
             let mut real_ids: Vec<Oid> = vec![f.root]; // revision (creation index) -> real commit
             let mut names: Vec<(String, String)> = vec![];
             for (i, ev) in hist_ops.iter().enumerate() {
-                let action = replay.action(ev, &|r| real_ids[r as usize]);
-                let embeds = match ev {
-                    Ev::Propose { doc, .. } => vec![Embed { name: "radicle.json".to_string(), content: f.docs[*doc as usize].blob }],
-                    _ => vec![],
-                };
+                let acts = ev.acts();
+                let contents: Vec<Vec<u8>> = acts.iter().map(|a| encode_action(&replay.action(ev.by(), a, &|r| real_ids[r as usize]))).collect();
+                let embeds: Vec<Embed<Oid>> = acts
+                    .iter()
+                    .filter_map(|a| match a {
+                        Act::Propose { doc, .. } => Some(Embed { name: "radicle.json".to_string(), content: f.docs[*doc as usize].blob }),
+                        _ => None,
+                    })
+                    .collect();
                 let (ok, made) = mem.applied[i];
-                let id = comb.push(None, &f.actors[ev.by() as usize], vec![encode_action(&action)], embeds, ok);
+                let id = comb.push(None, &f.actors[ev.by() as usize], contents, embeds, ok);
                 names.push((hex(&id), format!("#op{}", i + 1)));
                 if made.is_some() {
                     real_ids.push(id);
@@ -545,6 +620,35 @@ impl System for Sys {
                 out.push(Ev::Edit { by, rev });
                 out.push(Ev::Redact { by, rev });
             }
+            // Two-action operations (every one a deviation). Shapes: [accept|reject, propose],
+            // [propose, accept], [accept, accept another], [accept, redact], [edit, accept]; valid
+            // signatures, non-root targets, at most one `propose` (two would share the entry id and
+            // trip `debug_assert!(!self.revisions.contains_key(&entry))`).
+            let targets: Vec<u8> = (1..self.revs.len() as u8).collect();
+            let mut proposals = vec![];
+            if self.revs.len() < f.max_revs {
+                for doc in &f.menu {
+                    proposals.push(Act::Propose { doc: *doc, parent: Par::Cur, sig: Sig::Valid });
+                    if has_prev {
+                        proposals.push(Act::Propose { doc: *doc, parent: Par::Prev, sig: Sig::Valid });
+                    }
+                }
+            }
+            for r in &targets {
+                let acc = Act::Accept { rev: *r, sig: Sig::Valid };
+                for p in &proposals {
+                    out.push(Ev::Two { by, a: acc, b: *p });
+                    out.push(Ev::Two { by, a: Act::Reject { rev: *r }, b: *p });
+                    out.push(Ev::Two { by, a: *p, b: acc });
+                }
+                for r2 in &targets {
+                    if r2 != r {
+                        out.push(Ev::Two { by, a: acc, b: Act::Accept { rev: *r2, sig: Sig::Valid } });
+                    }
+                    out.push(Ev::Two { by, a: acc, b: Act::Redact { rev: *r2 } });
+                    out.push(Ev::Two { by, a: Act::Edit { rev: *r2 }, b: acc });
+                }
+            }
         }
         out
     }
@@ -561,6 +665,7 @@ impl System for Sys {
             Ev::Propose { sig, .. } => *sig != Sig::Valid,
             Ev::Accept { by, rev, sig } => *sig != Sig::Valid || self.has_verdict(*rev, f.keys[*by as usize]),
             Ev::Reject { by, rev } => self.has_verdict(*rev, f.keys[*by as usize]),
+            Ev::Two { .. } => true,
             _ => false,
         }
     }
@@ -571,43 +676,24 @@ impl System for Sys {
             self.hist.push(ev.clone());
             return StepOut::ok(format!("cfg:{n}-delegates"));
         }
-        let f = self.fx();
         let by = ev.by();
+        let acts = ev.acts();
         let pre_cur = self.cur_ix();
         let pre_full = self.snapshot(true);
         let pre_text = self.id.revision(&self.id.current).map(|r| (r.title.clone(), r.description.clone()));
         let author_is_delegate = self.is_delegate_of(pre_cur, by);
-        let n = self.applied.len() as u32 + 1;
-        let op_id = syn_oid(n);
-        let action = self.action(ev, &|r| self.revs[r as usize].id);
-        // Model: signatures that verify under the raw primitive count as "submitted".
-        match (&action, ev) {
-            (Action::Revision { signature, .. }, Ev::Propose { doc, .. }) if self.sig_valid(by, *doc, signature) => {
-                self.signed.insert((*doc, by));
-            }
-            (Action::RevisionAccept { signature, .. }, Ev::Accept { rev, .. }) => {
-                let d = self.revs[*rev as usize].doc;
-                if self.sig_valid(by, d, signature) {
-                    self.signed.insert((d, by));
-                }
-            }
-            _ => {}
-        }
-        let op = Op::new(op_id, nonempty::NonEmpty::new(action), f.keys[by as usize], Timestamp::from_secs(T0), None, Manifest::new(identity::TYPENAME.clone(), cob::Version::default()));
-        let result = with_repo(f, |repo| self.id.op(op, std::iter::empty::<&cob::Entry>(), repo));
-        let mut made = None;
-        if let Ev::Propose { doc, parent, .. } = ev {
-            if self.id.revision(&op_id).is_some() {
-                let p = match parent {
-                    Par::Cur => pre_cur,
-                    Par::Prev => self.revs[pre_cur as usize].parent.expect("prev"),
-                };
-                self.revs.push(RevInfo { id: op_id, doc: *doc, parent: Some(p), link_ok: None });
-                made = Some(self.revs.len() as u8 - 1);
-            }
-        }
+        // For a two-action operation: the state after its first action alone (same entry id),
+        // computed by the implementation itself on a copy. It defines "the current document" at the
+        // time of the second action.
+        let mid: Option<(u8, Vec<u8>, bool)> = if acts.len() == 2 {
+            let mut fork = self.clone();
+            let _ = fork.apply(by, &acts[..1]);
+            fork.rev_ix(&fork.id.current).map(|c| (c, fork.snapshot(true), fork.is_delegate_of(c, by)))
+        } else {
+            None
+        };
+        let (result, _made) = self.apply(by, &acts);
         self.hist.push(ev.clone());
-        self.applied.push((result.is_ok(), made));
 
         let mut vs = vec![];
         // I4 (first: `cur_ix` below needs a live current revision)
@@ -628,24 +714,46 @@ impl System for Sys {
             }
         }
         let post_cur = post_cur.unwrap();
-        // I2
-        if post_cur != pre_cur && self.revs[post_cur as usize].parent != Some(pre_cur) {
+        let post_full = self.snapshot(true);
+        // I2: every move of `current` goes to a successor. A two-action operation may move twice
+        // (pre → mid → post); an operation that is refused as a whole leaves `current` where it was.
+        let succ = |from: u8, to: u8| from == to || self.revs.get(to as usize).and_then(|r| r.parent) == Some(from);
+        let i2_ok = match &mid {
+            None => succ(pre_cur, post_cur),
+            Some((mid_cur, _, _)) => post_cur == pre_cur || (succ(pre_cur, *mid_cur) && succ(*mid_cur, post_cur)),
+        };
+        if !i2_ok {
             vs.push(Violation::new(
-                format!("C04/I2-current-replaced-by-non-successor/by-{}", ev.kind()),
-                format!("current moved from rev{pre_cur} to rev{post_cur}, whose parent is {:?}", self.revs[post_cur as usize].parent),
+                "C04/I2-current-replaced-by-non-successor".to_string(),
+                format!("current moved from rev{pre_cur}{} to rev{post_cur}, whose parent is {:?}", mid.as_ref().map(|m| format!(" (rev{} after the first action)", m.0)).unwrap_or_default(), self.revs[post_cur as usize].parent),
                 json!({"state": self.describe()}),
             ));
         }
-        // I3
-        if !author_is_delegate && self.snapshot(true) != pre_full {
+        // I3: an author that is not a delegate of the current document changes nothing. For the
+        // second action "current" is the document after the first action: the result must then be
+        // either the state after the first action alone or (operation refused) the state before.
+        if !author_is_delegate && post_full != pre_full {
             vs.push(Violation::new(
                 "C04/I3-non-delegate-changed-identity".to_string(),
                 format!("{} is not a delegate of the current document (rev{pre_cur}) but its {} changed the identity state", ACTOR_NAMES[by as usize], ev.kind()),
                 json!({"state": self.describe()}),
             ));
+        } else if let Some((mid_cur, mid_full, still_delegate)) = &mid {
+            if author_is_delegate && !still_delegate && post_full != pre_full && post_full != *mid_full {
+                vs.push(Violation::new(
+                    "C04/I3-non-delegate-changed-identity/second-action-after-losing-delegacy".to_string(),
+                    format!(
+                        "the first action of {}'s {} made rev{mid_cur} current, of whose document {} is not a delegate, yet the second action changed the identity state",
+                        ACTOR_NAMES[by as usize],
+                        ev.kind(),
+                        ACTOR_NAMES[by as usize]
+                    ),
+                    json!({"state": self.describe()}),
+                ));
+            }
         }
         // I1
-        self.check_i1(if post_cur != pre_cur { Some(post_cur) } else { None }, &mut vs);
+        self.check_i1(&mut vs);
 
         let res = match &result {
             Ok(()) => "ok".to_string(),
@@ -773,6 +881,9 @@ fn main() {
             vec![Ev::Cfg(n), p(0, 1), acc(1, Sig::WrongBlob), acc(2, Sig::Valid), acc(3, Sig::Garbage)],
             vec![Ev::Cfg(n), p(0, 1), Ev::Reject { by: 0, rev: 1 }, acc(1, Sig::Valid), acc(2, Sig::Valid)],
             vec![Ev::Cfg(n), p(0, 1), acc(1, Sig::Valid), acc(2, Sig::Valid), Ev::Edit { by: n, rev: 1 }, p(1, 2), Ev::Redact { by: 1, rev: 2 }],
+            // the delegate that is being removed casts the deciding vote and proposes in the same operation
+            vec![Ev::Cfg(n), p(0, 1), acc(1, Sig::Valid), acc(2, Sig::Valid), Ev::Two { by: n - 1, a: Act::Accept { rev: 1, sig: Sig::Valid }, b: Act::Propose { doc: 2, parent: Par::Cur, sig: Sig::Valid } }],
+            vec![Ev::Cfg(n), p(0, 1), p(1, 2), Ev::Two { by: 2, a: Act::Accept { rev: 1, sig: Sig::Valid }, b: Act::Accept { rev: 2, sig: Sig::Valid } }, Ev::Two { by: 3, a: Act::Edit { rev: 2 }, b: Act::Accept { rev: 1, sig: Sig::Valid } }],
         ] {
             todo.insert(serde_json::to_string(&h).unwrap());
         }
@@ -787,27 +898,38 @@ fn main() {
                 Err(e) => die(&format!("conformance replay of {} failed: {e}", todo[i as usize])),
             }
         },
-        None::<mcx::sweep::NoPanic>,
+        // A panic of the code under test while the real evaluation runs is a violation with the same
+        // fingerprint the exploration gives it (a harness panic stays a machinery error).
+        Some(|i: u64, c: &mcx::panics::Caught| {
+            Violation::new(
+                format!("C04/panic@{}", c.site()),
+                format!("panic while the history is applied / evaluated from real commits: {} ({}:{})", c.message, c.file, c.line),
+                json!({"history": serde_json::from_str::<Value>(&todo[i as usize]).unwrap_or(Value::Null), "detail": {"panic": c.message, "file": c.file, "where": "conformance replay"}}),
+            )
+        }),
     );
 
     let mut cov = res.coverage(
-        "BFS over histories of single-action identity operations (propose/accept/reject/edit/redact) by every delegate and a stranger, with valid / wrong-blob / wrong-key / garbage signatures, \
+        "BFS over histories of identity operations with one action (propose/accept/reject/edit/redact) or two actions (see assumptions) by every delegate and a stranger, with valid / wrong-blob / wrong-key / garbage signatures, \
          current and stale parents, documents that remove a delegate / add the stranger / raise the threshold; applied with the real Identity::op in causal order, a failing op is pruned and the object stays as left. \
-         Deviation = non-valid signature, duplicate verdict, or author not a delegate of the current document. A state = (current, heads, per revision state/parent/verdicts with signature validity, model bits); \
+         Deviation = non-valid signature, duplicate verdict, author not a delegate of the current document, or a two-action operation. A state = (current, heads, per revision state/parent/verdicts with signature validity, model bits); \
          distinct = distinct canonical states",
     );
     cov.insert("conformance_replays".into(), json!(st.evaluations));
+    cov.insert("conformance_outcomes".into(), json!(st.outcomes));
     cov.insert("conformance_stride".into(), json!(if stride > 0 { format!("1 in {stride} of all executed histories (by hash): {stride_n}; plus violating witnesses, deepest samples and a fixed family") } else { "violating witnesses, deepest samples and a fixed family".to_string() }));
     cov.insert(
         "config".into(),
         json!(fixes().iter().map(|f| json!({"delegates": f.n_del, "stranger": 1, "documents": f.menu.iter().map(|d| f.docs[*d as usize].what).collect::<Vec<_>>(), "max_revisions_incl_root": f.max_revs, "depth": f.depth, "deviations": f.max_devs})).collect::<Vec<_>>()),
     );
-    let violations = std::mem::take(&mut res.violations);
+    let mut violations = std::mem::take(&mut res.violations);
+    violations.merge(st.violations.clone());
     cleanup();
     ctx.finish(
         cov,
         &[
-            "operations are single-action; multi-action operations are the subject of C06",
+            "operations carry one action, or two actions in the shapes [accept|reject, propose], [propose, accept], [accept, accept another], [accept, redact], [edit, accept] (valid signatures, non-root targets; every two-action operation counts as a deviation); an operation with two `revision` actions is kept out of the alphabet because both would use the entry id as revision id and trip debug_assert!(!self.revisions.contains_key(&entry)) in Identity::action; longer operations are the subject of C06",
+            "for the second action of an operation, `the current document` is the one after the first action alone, obtained by applying that action by itself (same entry id) to a copy with the real Identity::op",
             "the linear history is realised as a change graph in which every operation is a child of the last successfully applied one (failed operations are leaves); `concurrent` is empty for every in-memory application — it only affects whether an UnexpectedState operation is reported as failed or ignored, never the state",
             "trusted: ed25519 verification primitive, git object store",
         ],
